@@ -45,7 +45,7 @@ def run(ck):
             d = skip_copies(d.get("e"))
         if isinstance(d, dict) and d.get("k") == "construct" and d.get("class") == "QJsonDocument" and d.get("args"):
             o = skip_copies(deref_local(fn, d["args"][0]))
-            if isinstance(o, dict) and o.get("k") == "ref":
+            if isinstance(o, dict) and (o.get("k") == "ref" or (o.get("k") == "member" and skip_copies(o.get("base") or {}).get("k") == "this")):
                 d = dict(d, args=[o] + list(d["args"][1:]))   # the object local, possibly returned by a spliced helper
                 return tj, d
         return None
@@ -66,6 +66,32 @@ def run(ck):
     ck.require(len(objs) == 1, "the returns of JsonFormatter::format serialise different objects")
     objdecl = objs.pop()
     tojson = shaped[0][1][0]
+    # the record holds the members of this message only: the serialised object starts empty in this call
+    ck.rule("C13-O5", "the serialised object is built from nothing in each call: a local that starts empty (or a member emptied on every path before the first insertion); nothing of an earlier message survives in it")
+    objnode = skip_copies(shaped[0][1][1]["args"][0])
+    if objnode.get("k") == "ref" and objnode.get("dk") in ("local", None):
+        dv = [v for n_ in fn.find(lambda n: n.get("k") == "decl") for v in n_.get("vars", []) if v.get("decl") == objdecl]
+        if len(dv) == 1 and not dv[0].get("static"):
+            i = skip_copies(dv[0].get("init")) if isinstance(dv[0].get("init"), dict) else None
+            empty = i is None or (i.get("k") == "construct" and not [a for a in i.get("args", []) if a.get("k") != "defaultarg"]) or (i.get("k") == "initlist" and not i.get("els"))
+            ck.ob("C13-O5", sitestr(fn), True if empty else None, "the object is a local of format() that starts empty" if empty else "the object local starts as %s" % describe(i)[:60], key="JsonFormatter::format|fresh-object")
+        else:
+            ck.ob("C13-O5", sitestr(fn), False if (dv and dv[0].get("static")) else None, "the serialised object is a static local: members inserted for earlier messages stay in it" if dv else "declaration of the serialised object not found",
+                  key="JsonFormatter::format|fresh-object")
+    else:
+        # a data member / global: every path to the first insertion must empty it
+        resets = []
+        for n_ in fn.calls():
+            if n_.get("op") == "=" and len(n_.get("args", [])) == 2 and skip_copies(n_["args"][0]).get("decl") == objdecl:
+                r_ = skip_copies(n_["args"][1])
+                if (r_.get("k") == "construct" and not [a for a in r_.get("args", []) if a.get("k") != "defaultarg"]) or (r_.get("k") == "initlist" and not r_.get("els")):
+                    resets.append(n_)
+        ins_ = [s_["node"] for s_ in json_sets(fn) if s_["obj"] == objdecl]
+        rs_sites = set(g.sites_of_nodes(resets))
+        okf = bool(resets) and bool(ins_) and all(g.must_pass(rs_sites, to=g.site_of(x_)) for x_ in ins_)
+        ck.ob("C13-O5", sitestr(fn, ins_[0] if ins_ else None), okf, "the member object is emptied on every path before anything is inserted" if okf else
+              "the serialised object %s outlives the call and is not emptied on every path: members of an earlier message (an attribute this message does not have) stay in the record" % describe(objnode),
+              key="JsonFormatter::format|fresh-object")
     isc = lambda n: is_this_field(n, JF + "::m_compact")
     for val, want, wname in ((True, 1, "Compact"), (False, 0, "Indented")):
         keepv = g.projector(atom_eq(isc, val))
